@@ -314,10 +314,10 @@ PROPS['C17'] = {
     'level_text': 'Bounded stand-in (not a proof): the contract "the bytes fed into leaves and remainder are exactly the concatenated payload minus the 8-byte header; every leaf has the '
                   'fixed size; remainder < fixed size" is evaluated on the real MerkleAccumulator::add_merkle_leaf for EVERY 2- and 3-way (thorough: 4-way) split of a payload, '
                   'fixed_size in {None,2,3,5}, large_size in {false,true}. The function uses HashMap/BTreeMap entry APIs: outside Verus, and CBMC did not finish (> 20 min).',
-    'level_note': 'bounded: payload 20 (28) bytes, small leaf sizes (the size arithmetic is generic in fixed_size); Builder remainder flush and "reads back Valid" not covered.',
+    'level_note': 'bounded: payload 20 (28) bytes with small leaf sizes exhaustively, 1 KB / 64 KB leaves on a boundary grid plus a fixed sample of multi-way splits; Builder remainder flush and "reads back Valid" not covered.',
     'technique': TECH_B,
-    'parts': [B('native:add_merkle_leaf', 'sdk', [T('c17_add_merkle_leaf_all_splits')], functions=[('sdk/src/utils/merkle.rs', 'add_merkle_leaf')],
-                bounds='payload 20 bytes (thorough 28), every 2/3-way (thorough 4-way) split, fixed_size in {None,2,3,5}, large_size in {false,true}')],
+    'parts': [B('native:add_merkle_leaf', 'sdk', [T('c17_add_merkle_leaf_all_splits'), T('c17_add_merkle_leaf_kb_leaf_sizes')], functions=[('sdk/src/utils/merkle.rs', 'add_merkle_leaf'), ('sdk/src/utils/merkle.rs', 'set_fixed_size')],
+                bounds='payload 20 bytes (thorough 28), every 2/3-way (thorough 4-way) split, fixed_size in {None,2,3,5}, large_size in {false,true}; and the sizes of the statement: leaves of 1 KB and 64 KB through set_fixed_size, payload 2 leaves + 708 bytes, first cut 0..=32 x second cut within 2 bytes of the header / leaf boundaries (1 KB, thorough 64 KB: also first cut + 0..=32), plus 300/30 (thorough 2000/200) fixed-seed random 2..7-way splits (this last part is a sample, so the part is reported exhaustive=false)')],
     'trusted_base': ['rustc', 'SHA-256 of the real crate used as the oracle hash'],
     'rule': 'one evaluation = one (split, fixed_size, large_size) tuple run through the real function and compared with the contract; non-trivial = first cut strictly inside the payload',
     'not_covered': ['Builder::update_hash_from_stream remainder flush', 'BmffHash verification of the recorded leaves (validate_merkle_maps_mdat_boxes)', 'end-to-end Valid read-back'],
